@@ -49,7 +49,8 @@ if ok:
         env['VERIF_REPO'] = rc_dir
         for cid in [prop] + extra:
             t = time.time()
-            rc, o = sh(f'/verif/bin/vcheck {cid} --tier quick', cwd='/verif', timeout=3000)
+            snap = os.environ.get('VERIF_SNAP', '/verif')
+            rc, o = sh(f'{snap}/bin/vcheck {cid} --tier quick', cwd=snap, timeout=3000)
             lines = [l for l in o.splitlines() if l.startswith(('VIOLATION', 'RESULT', 'INCONCLUSIVE', 'KNOWN', '  '))]
             out['checks'][cid] = {'exit': rc, 'wall_s': round(time.time() - t, 1), 'lines': lines[:8]}
     finally:
